@@ -347,16 +347,16 @@ PROPS = {
                    "ChonkyV2State, ReplicaState (the stored state), ValidatorInfo, LeaderSelection(Mode), NetAddress, Msg, Signed<V> with the three "
                    "Variant impls, bit_vec::BitVec (against the documented to_bytes/from_bytes/truncate semantics; lengths that are not multiples "
                    "of 8 included), roles::node Msg / Signed<V>, the preface Encryption / Endpoint messages, the consensus and gossip handshakes (the "
-                   "build version through its string form), the RPC requests and responses of consensus, get_block, ping and push_validator_addrs "
-                   "(a batch of Arc<Signed<NetAddress>>, loop invariant over the batch), and the generic helpers required / read_required / read_optional. Kani (complete harnesses on the real "
+                   "build version through its string form), the RPC requests and responses of consensus, get_block, ping, push_validator_addrs "
+                   "(a batch of Arc<Signed<NetAddress>>, loop invariant over the batch), push_block_store_state and push_tx (through the reverse "
+                   "trait ProtoRepr, which carries the same contract; BlockStoreState / Last / Transaction), and the generic helpers required / read_required / read_optional. Kani (complete harnesses on the real "
                    "crates, concrete counterexamples): Duration (EVERY decodable value, after fix F7), SocketAddr (all addresses and ports), Phase, "
                    "View, ReplicaCommit round-trip; Duration/Timestamp decoding total.",
         level_note="NOT decided: the protobuf wire layer (prost, quick_protobuf, the reflection-driven canonical_raw, the build-time schema "
                    "check) -- sentences 2 and 3 of the statement stay with the existing tests. Assumed leaves (A3/A2): ByteFmt of keccak digests, "
                    "ProtoFmt of PublicKey/Signature/AggregateSignature (blst), of bit_vec::BitVec (from_bytes/to_bytes/truncate), of SocketAddr and "
                    "Utc inside the Verus unit (SocketAddr is decided by Kani). Schedule / Genesis decode through Schedule::new (validation + "
-                   "sort) and are not under the round-trip contract (it holds only for values satisfying the type's invariant); the "
-                   "push_block_store_state and push_tx requests (ProtoRepr, a different trait) are not extracted; semver parse/print is assumed. `enc` (one spec function per type) is the wire schema mapping: a deliberate "
+                   "sort) and are not under the round-trip contract (it holds only for values satisfying the type's invariant); semver parse/print is assumed. `enc` (one spec function per type) is the wire schema mapping: a deliberate "
                    "format change has to change it. Vec equality is content equality; BTreeMap iterates in strictly increasing key order (A1).",
         technique="contract-based deductive verification (Verus: round-trip contract on the ProtoFmt trait, real impl blocks, proto types generated from .proto) + Kani complete harnesses on the real leaf conversions",
         design_ref="DESIGN.md §5 C09",
